@@ -452,6 +452,9 @@ func C02_Cross() {
 		{"for i in $(a); do ((i + 1)); done", "for i in $( a ); do ((i + 1)); done", "arith-eval"},
 		{"a <<E; ((1 + 2))\nx\nE\n", "a <<E\nx\nE\n((1 + 2))", "arith-eval"},
 		{"{ (a) }; ((1 + 2))", "{ (a); }; ((1 + 2))", "arith-eval"},
+		{"((1 + 2)); ( (a))", "((1 + 2)); ( ( a ) )", "subshell"},
+		{"if ((1 > 0)); then (a && (b)); fi", "if ((1 > 0)); then ( a && ( b ) ); fi", "subshell"},
+		{"((1)); x=$( (a))", "((1)); x=$( ( a ) )", "subshell"},
 	}
 	p := pairs[nd.Choice(len(pairs))]
 	nd.Observe(p[0])
